@@ -590,10 +590,25 @@ type Contracts struct {
 	// IfaceGetters: interfaces whose parameterless single-result methods are
 	// stable pure getters ("pkgpath.Iface").
 	IfaceGetters map[string]bool
+	// IfaceGetterMethods: optional restriction to listed methods.
+	IfaceGetterMethods map[string]map[string]bool
+}
+
+// isGetter reports whether method m of interface q ("pkgpath.Iface") is declared a stable getter.
+func (cs *Contracts) isGetter(q, m string) bool {
+	for _, k := range []string{q, strings.TrimPrefix(q, modPrefix)} {
+		if cs.IfaceGetters[k] {
+			if lst := cs.IfaceGetterMethods[k]; lst != nil {
+				return lst[m]
+			}
+			return true
+		}
+	}
+	return false
 }
 
 func NewContracts() *Contracts {
-	return &Contracts{Funcs: map[string]*FuncContract{}, SpecFns: map[string]*SpecFun{}, Ifaces: map[string]*FuncContract{}, IfaceGetters: map[string]bool{}}
+	return &Contracts{Funcs: map[string]*FuncContract{}, SpecFns: map[string]*SpecFun{}, Ifaces: map[string]*FuncContract{}, IfaceGetters: map[string]bool{}, IfaceGetterMethods: map[string]map[string]bool{}}
 }
 
 var clauseKeywords = map[string]bool{
@@ -676,10 +691,39 @@ func (cs *Contracts) LoadFile(path, pkgPath string, specOnly bool) {
 			cs.Funcs[ref] = cur
 			cs.Order = append(cs.Order, ref)
 		case "ifacegetters":
+			// ifacegetters I            : every parameterless single-result method of I
+			// ifacegetters I:M1,M2,...  : only the listed methods
 			for _, n := range strings.Fields(rest) {
-				cs.IfaceGetters[qualifyRef(n, pkgPath)] = true
-				cs.AssumeLike = append(cs.AssumeLike, "ifacegetters "+n+" (parameterless single-result methods are stable pure getters)")
+				name, list := n, ""
+				if i := strings.Index(n, ":"); i >= 0 {
+					name, list = n[:i], n[i+1:]
+				}
+				q := qualifyRef(name, pkgPath)
+				cs.IfaceGetters[q] = true
+				if list != "" {
+					if cs.IfaceGetterMethods[q] == nil {
+						cs.IfaceGetterMethods[q] = map[string]bool{}
+					}
+					for _, m := range strings.Split(list, ",") {
+						cs.IfaceGetterMethods[q][m] = true
+					}
+				}
+				cs.AssumeLike = append(cs.AssumeLike, "ifacegetters "+n+" (these methods are stable pure getters)")
 			}
+		case "ghost":
+			// ghost heap <name> <keysort> <valsort>
+			fs := strings.Fields(rest)
+			if len(fs) != 4 || fs[0] != "heap" {
+				fail(l.line, "ghost: expected 'ghost heap <name> <keysort> <valsort>'")
+				continue
+			}
+			ks, ok1 := specSort(nil, fs[2])
+			vs, ok2 := specSort(nil, fs[3])
+			if !ok1 || !ok2 {
+				fail(l.line, "ghost heap %s: unknown sort", fs[1])
+				continue
+			}
+			ghostHeaps[fs[1]] = [2]string{ks, vs}
 		case "iface":
 			// iface pkg.Iface.Method pure | ensures e | requires e
 			parts := strings.SplitN(rest, " ", 3)
@@ -700,6 +744,12 @@ func (cs *Contracts) LoadFile(path, pkgPath string, specOnly bool) {
 			switch parts[1] {
 			case "pure":
 				ic.Pure = true
+			case "modifies":
+				for _, part := range splitTop(arg) {
+					if c, ok := mk(part, l.line); ok {
+						ic.Modifies = append(ic.Modifies, c)
+					}
+				}
 			case "ensures":
 				if c, ok := mk(arg, l.line); ok {
 					ic.Ensures = append(ic.Ensures, c)
